@@ -26,12 +26,36 @@ func vfC20Peer(e *vfEnv, r *vfResult, idx int) { //nolint:cyclop
 	if nA*nP < 2 {
 		nP = 2
 	}
-	if err := s.setupAgentVsPeer(vfSideCfg{MaxBinding: 1000, Renomination: true, TieBreaker: 77}, false, nA, nP, true); err != nil {
+	// one run in three: the peer's addresses are not signalled up front; the agent learns them as peer-reflexive from the
+	// peer's checks / nominations and is told the signalled candidates in the middle of the exchange (supersession)
+	tellFirst := rng.IntN(3) != 0
+	if err := s.setupAgentVsPeer(vfSideCfg{MaxBinding: 1000, Renomination: true, TieBreaker: 77}, false, nA, nP, tellFirst); err != nil {
 		r.inconclusive(1)
 
 		return
 	}
 	p := s.P
+	var untold []*vfConn
+	if !tellFirst {
+		untold = append(untold, p.socks...)
+	}
+	tellOne := func() {
+		if len(untold) == 0 {
+			return
+		}
+		c := untold[0]
+		untold = untold[1:]
+		prio := uint32(2130706431 - rng.IntN(4000))
+		if rng.IntN(3) == 0 {
+			prio = uint32(1694498815 + rng.IntN(1000)) // far below a peer-reflexive / host priority
+		}
+		if rc, err := NewCandidateHost(&CandidateHostConfig{Network: "udp", Address: c.local.Addr().String(), Port: int(c.local.Port()), Component: 1, Priority: prio}); err == nil {
+			s.step("addremote", "A", 0, "A told (late) "+vfCandAddr(rc))
+			s.A.addRemote(rc)
+			s.afterStep()
+			r.count("c20_late_signalled_candidates", 1)
+		}
+	}
 	aSocks := s.aSockets()
 	type pairKey struct{ sock, dst netip.AddrPort }
 	var pairs []pairKey
@@ -149,6 +173,9 @@ func vfC20Peer(e *vfEnv, r *vfResult, idx int) { //nolint:cyclop
 		if after.LastNom != accMax {
 			s.viol("C20", "accepted-value-not-running-max", fmt.Sprintf("the agent's highest accepted nomination value is %d, the strict running maximum of the delivered values is %d", after.LastNom, accMax), nil)
 		}
+		if rng.IntN(8) == 0 {
+			tellOne()
+		}
 		if rng.IntN(12) == 0 { // the peer starts answering a pair it had been silent on
 			pk := pairs[rng.IntN(len(pairs))]
 			answer[pk] = true
@@ -161,6 +188,9 @@ func vfC20Peer(e *vfEnv, r *vfResult, idx int) { //nolint:cyclop
 		}
 	}
 	// quiesce: answer everything still held, a tick so that unanswered checks are retried, deliver all
+	for len(untold) > 0 {
+		tellOne()
+	}
 	for _, pk := range pairs {
 		answer[pk] = true
 		for _, d := range held[pk] {
@@ -186,7 +216,7 @@ func vfC20Peer(e *vfEnv, r *vfResult, idx int) { //nolint:cyclop
 	for _, ps := range fin.Pairs {
 		states[ps.State.String()] = true
 	}
-	r.distinct(fmt.Sprintf("c20peer/nA=%d/nP=%d/noms=%d/max=%d", nA, nP, nNom, accMax))
+	r.distinct(fmt.Sprintf("c20peer/nA=%d/nP=%d/noms=%d/max=%d/toldfirst=%v", nA, nP, nNom, accMax, tellFirst))
 	if accMax >= 0 && len(deliveredNom) == len(issued) {
 		targetValid := false
 		for _, ps := range fin.Pairs {
